@@ -252,6 +252,7 @@ pub fn graph_inputs(tier: &str, for_sched: bool) -> Vec<GraphCase> {
         let mut pc: Vec<Vec<Edge>> = (0..len).map(|t| vec![Edge::Ptr((t + 1) % len)]).collect();
         pc.push(vec![Edge::Val(0)]);
         out.push(build_case(n, &pc, &vec![0; n], &(0..n).rev().collect::<Vec<_>>(), "pointer_cycle"));
+        // (the same by-value cycle with vftable owners is generated in `cycles_with_vftables`)
         // a cycle broken by exactly one pointer edge
         let mut broken: Vec<Vec<Edge>> = (0..len).map(|t| vec![if t == len - 1 { Edge::Ptr(0) } else { Edge::Val(t + 1) }]).collect();
         broken.push(vec![Edge::Arr(0)]);
@@ -350,6 +351,39 @@ pub fn undefined_elsewhere() -> Vec<(Input, &'static str, bool)> {
                 all.push(Item::Type(foo.clone()));
             }
             out.push((mk(all), if pos.starts_with("extern") { "generated_vftable_in_extern_value" } else { "generated_vftable_name" }, true));
+        }
+    }
+    // ... also when it is imported by name from another module
+    for declared_first in [true, false] {
+        let mut foo = TypeS::new("Foo");
+        foo.vft = Some(VftS { size: None, funcs: vec![FuncS::new("v")] });
+        foo.fields = vec![FieldS::new("x", MTy::b("u8").cptr())];
+        let mut r = TypeS::new("T1");
+        r.fields = vec![FieldS::new("p", MTy::user("FooVftable").cptr()), FieldS::new("y", MTy::b("u8").cptr())];
+        let m0 = ModuleS::new("m0").with(vec![Item::Type(foo)]);
+        let m1 = ModuleS::new("m1").with(vec![Item::Use("m0::FooVftable".into()), Item::Type(r)]);
+        let mods = if declared_first { vec![m0, m1] } else { vec![m1, m0] };
+        out.push((to_input(&mods), "generated_vftable_name", true));
+    }
+    out
+}
+
+/// By-value cycles in which one or every member declares a vftable block (its generated vftable
+/// item is registered on every attempt): must still end in an error.
+pub fn cycles_with_vftables() -> Vec<Input> {
+    let mut out = vec![];
+    for len in 1..=3usize {
+        for all in [false, true] {
+            let mut items = vec![];
+            for t in 0..len {
+                let mut ty = TypeS::new(&format!("T{t}"));
+                if all || t == 0 {
+                    ty.vft = Some(VftS { size: None, funcs: vec![FuncS::new(&format!("v{t}"))] });
+                }
+                ty.fields = vec![FieldS::new("next", MTy::user(&format!("T{}", (t + 1) % len)))];
+                items.push(Item::Type(ty));
+            }
+            out.push(to_input(&[ModuleS::new("m0").with(items)]));
         }
     }
     out
